@@ -7,7 +7,7 @@ from vf.gen import rtl_gen, rtl_sim
 
 ID = "C01"
 LEVEL = "exploration"
-RULE = ("case = (generated acyclic RTL design in the harness IR - hierarchy with lists of components, interfaces and lists of interfaces, struct / list signals, lambda connections, @s.func helper functions (nested), child input ports registered by the parent - input sequence, schedule seeds); each design "
+RULE = ("case = (generated acyclic RTL design in the harness IR - hierarchy with lists of components, interfaces and lists of interfaces, struct / list signals, lambda connections, @s.func helper functions (statement helpers nested up to three deep, value-returning helpers with a parameter shared by several blocks), child input ports registered by the parent - input sequence, schedule seeds); each design "
         "is simulated under DefaultPassGroup, SimpleSchedule (seeded shuffles), HeuTopoUnrollSim, Mamba2020, "
         "UnrollSim and under forced linear extensions of top._dag.all_constraints with permuted ff orders; "
         "after every sim_eval_combinational and sim_tick all signals are compared with the independent "
